@@ -93,6 +93,7 @@ pub fn snow_from_rm_with<const PL: usize>(hs: &Hs, name: &str, fixed_ephemeral: 
     let parts = HandshakeParts {
         rng: o.rng,
         cipher: o.cipher,
+        cipher_key: hs.sym.k,
         cipher_nonce: hs.sym.n,
         cipher_has_key: hs.sym.has_k,
         hasher: o.hasher,
